@@ -65,7 +65,10 @@ def harvest_texts():
     slot types: 'doc' (block description), 'pdoc' (parameter description), 'tdoc' (tag
     description), 'version', 'stability', 'attr'."""
     message.MessageLogger._instance = None
-    out = {'doc': {}, 'pdoc': {}, 'tdoc': {}, 'version': {}, 'stability': {}, 'attr': {}}
+    # 'raw': values that do not come from comments at all - C string constants and GValue contents printed
+    # by the runtime dump (property default values) can be any string
+    out = {'doc': {}, 'pdoc': {}, 'tdoc': {}, 'version': {}, 'stability': {}, 'attr': {},
+           'raw': dict((k, v.replace('\n *', '\n')) for k, v in TEXT_CLASSES.items())}
     parser = GtkDocCommentBlockParser()
     for cls, v in TEXT_CLASSES.items():
         first = v.split('\n')[0]
@@ -212,7 +215,7 @@ def b_alias(o):
 def b_constant(o):
     ns = new_ns()
     if o('string'):
-        c = ast.Constant('C', UTF8(), o.text('value', 'doc'), 'FOO_C')
+        c = ast.Constant('C', UTF8(), o.text('value', 'raw'), 'FOO_C')
     elif o('bool'):
         c = ast.Constant('C', ast.Type(target_fundamental='gboolean', ctype='gboolean'), 'true', 'FOO_C')
     elif o('double'):
@@ -676,7 +679,7 @@ def b_property(o, shape='int'):
     if o('getter'):
         p.getter = 'get_prop_a'
     if o('default_value'):
-        p.default_value = o.text('default_value', 'attr')
+        p.default_value = o.text('default_value', 'raw')
     generic(o, p)
     return class_with('properties', p)
 
@@ -1146,6 +1149,7 @@ def run(ctx):
     ctx.cov['bounds']['scanned_namespaces'] = len(scases) + 1
     for r in pmap(_work_scanned, rotate(chunked(scases, 64), ctx.seed)):
         ctx.merge(r)
+    c05gen._stable_first(ctx)
     ctx.assumptions += [
         'text values are exactly those the real GtkDocCommentBlockParser delivers for each text class in each slot '
         '(leading/trailing whitespace and comment decoration are removed by the parser before the writer sees them)',
